@@ -205,3 +205,26 @@ func vhFreshSerial() {
 		vAssertPossible(!vBytesEq(d1, d2), "two certificates without configured serial always get the same serial number")
 	}
 }
+
+// vhNoExtensions: C02 / C06 for the empty extension set ("including none").
+// A configuration without extensions - none written, or an empty list - yields
+// a TBSCertificate that ends with the subjectPublicKeyInfo: no [3] element at
+// all (RFC 5280: Extensions ::= SEQUENCE SIZE (1..MAX)).
+func vhNoExtensions() {
+	cfg := CertConfig{Subject: "CN=a", SerialNumber: 5}
+	if vChoose("list", 2) == 1 {
+		cfg.Extensions = []AnyExtension{}
+	}
+	crt, _, err := vGenerate(cfg)
+	vAssert(err == nil && crt != nil, "generation without extensions failed")
+	if err != nil || crt == nil {
+		return
+	}
+	vReach("generated")
+	tbs := vMust(asn1.Marshal(crt.TBSCertificate))
+	spki := vMust(asn1.Marshal(crt.TBSCertificate.PublicKey))
+	vAssert(len(tbs) >= len(spki), "TBSCertificate shorter than its public key")
+	if len(tbs) >= len(spki) {
+		vSameBytes(tbs[len(tbs)-len(spki):], spki, "a certificate without extensions carries something after its subjectPublicKeyInfo (an empty extensions field?)")
+	}
+}
